@@ -37,12 +37,15 @@ pub open spec fn err_post<D: DiffHook>(d0: D, d1: D, res: Result<(), D::Error>) 
 
 /// C01: on success the hook has received exactly a valid script segment for the box, then `tail`
 pub open spec fn seg_post<Old: Index<usize> + ?Sized, New: Index<usize> + ?Sized, D: DiffHook>(
-    d0: D, d1: D, old: &Old, or: Range<usize>, new: &New, nr: Range<usize>, lvl: int, tail: Seq<Ev>, is_ok: bool) -> bool
+    d0: D, d1: D, old: &Old, or: Range<usize>, new: &New, nr: Range<usize>, lvl: int, optimal: bool, tail: Seq<Ev>, is_ok: bool) -> bool
   where New::Output: PartialEq<Old::Output>
 {
     is_ok ==> exists|s: Seq<Ev>| #[trigger] seg(old, new, lvl, s, or.start as int, nr.start as int, or.end as int, nr.end as int)
         && d1.trace() == d0.trace() + s + tail
         && (d0.relies() ==> d1.rely_st() == run_rel(d0.rely_rel(), d0.rely_st(), s + tail))
+        // C03: the number of items reported equal is the length of a longest common subsequence
+        && (optimal ==> seg_eqs(rel_of(old, new), lvl, s, or.start as int, nr.start as int, or.end as int, nr.end as int)
+                == lcs_len(old, or.start as int, or.end as int, new, nr.start as int, nr.end as int))
 }
 
 pub proof fn lemma_run_fin<D: DiffHook>(rel: Rel, st: St, s: Seq<Ev>)
